@@ -40,6 +40,8 @@ type GenOpts struct {
 	MaxDepth int
 	MaxKids  int
 	Plain    bool // only plain names, files, directories and links (for edit-heavy streams)
+	// SizeMismatch allows files that are bind mounts of procfs/sysfs files.
+	SizeMismatch bool
 }
 
 // GenFile draws a regular file.
@@ -62,8 +64,15 @@ func GenFile(r *hx.Rand) *Node {
 	return n
 }
 
+// bindSources are kernel files whose st_size differs from what a read returns
+// (procfs: 0, sysfs: one page): scanning them runs into "hashed size mismatch".
+var bindSources = []string{"/proc/version", "/sys/devices/system/cpu/online"}
+
 // GenLeaf draws a non-directory node.
 func GenLeaf(r *hx.Rand, o GenOpts) *Node {
+	if o.SizeMismatch && r.Chance(1, 25) {
+		return &Node{Kind: 'F', Perm: 0o444, Bind: bindSources[r.Intn(len(bindSources))]}
+	}
 	switch k := r.Intn(100); {
 	case k < 62:
 		return GenFile(r)
